@@ -454,4 +454,4 @@ func objPos(o *ast.Object) token.Pos {
 	return token.NoPos
 }
 
-func leanStr(s string) string { return fmt.Sprintf("%q", s) }
+func sfLeanStr(s string) string { return fmt.Sprintf("%q", s) }
